@@ -1566,6 +1566,20 @@ class Scalar(Qube):
         -0.5: _power_neg_half,
     }
 
+    def _units_to_power(self, expo):
+        """The units of this object raised to a single power.
+
+        The same rule applies to single values and to arrays: units are raised
+        to the power exactly; a pure number can be raised to any power.
+        """
+
+        try:
+            return Units.units_power(self._units_, expo)
+        except ValueError:
+            if Units.is_unitless(self._units_):
+                return None
+            raise
+
     # Generic exponentiation, PolyMath scalar to a single scalar power
     def __pow__(self, expo, recursive=True):
 
@@ -1610,7 +1624,7 @@ class Scalar(Qube):
                 return self.masked_single(recursive)
 
             new_mask = Qube.or_(self._mask_, expo._mask_)
-            new_units = Units.units_power(self._units_, expo._values_)
+            new_units = self._units_to_power(expo._values_)
 
         # Array case
         else:
@@ -1638,10 +1652,10 @@ class Scalar(Qube):
                 new_mask = Qube.or_(new_mask, invalid)
 
             # Check units and exponent
-            if Units.is_unitless(self._units_):
+            if np.isscalar(expo._values_):
+                new_units = self._units_to_power(expo._values_)
+            elif Units.is_unitless(self._units_):
                 new_units = None
-            elif np.isscalar(expo._values_):
-                new_units = Units.units_power(self._units_, expo._values_)
             else:
                 raise ValueError('Scalar with units cannot be raised to '
                                  'multiple powers')
